@@ -76,6 +76,12 @@ def run(ctx):
             last = {"operation": op, "data": [filt.gen_criterion(rng, db, op.split()[0], triple_p=1.0, negated=True, bad_ok=False)
                                               for _ in range(rng.choice([1, 1, 2]))]}
             cmds = pre + [last]
+            if rng.random() < 0.5:
+                # ... and the filter goes on: a later command reusing the subject or the object pattern
+                t = rng.choice(last["data"])
+                op2 = rng.choice(["include", "exclude", "include all"])
+                crit2 = rng.choice([t[0], t[2], [t[0], filt.gen_predicate(rng, None, False), t[2]]])
+                cmds.append({"operation": op2, "data": [crit2]})
             eq, impl, model = filt.compare(db, cmds, drv)
             ctx.count("negated triples after earlier commands on the same filter",
                       repr((sorted(db["programs"]), cmds, impl.get("final"))), nontrivial=filt.nontrivial(impl, db))
